@@ -181,7 +181,7 @@ impl Names {
         Names {
             vars: ["x", "y", "z", "w"].iter().map(|s| s.to_string()).collect(),
             props: props.to_vec(),
-            wilds: ["p", "q", "r"].iter().map(|s| s.to_string()).collect(),
+            wilds: ["p", "q", "r", "w0", "w1", "w2"].iter().map(|s| s.to_string()).collect(),
             doms: ["d", "e", "g"].iter().map(|s| s.to_string()).collect(),
         }
     }
@@ -594,6 +594,8 @@ pub fn collision_alphabet(nm: &Names) -> Vec<F> {
         "(!{x} in %e%: a) & ((!{x}: AX ({x} & %p%)) & (!{x}: AX ({x} & %p%)))",
         "!{x}: AG EF {x}",
         "!{x} in %d%: ((!{y}: AG EF {y}) & {x})",
+        "3{x} in %d%: 3{y} in %e%: ({x} & EX {y})",
+        "3{x}: 3{y} in %e%: ({x} & EX {y})",
         // --- thorough only below ---
         "(~ a) & (!{x} in %d%: (~ a))",
         "!{x}: EX ({x} & (!{z}: EX {z}))",
@@ -701,6 +703,19 @@ pub fn templates(nm: &Names, ext: bool, pool_size: usize) -> Vec<F> {
                 out.push(format!("(!{{x}}: EX ({b})) | ({q}{{x}} in %d%: EX ({b}))"));
                 out.push(format!("({q}{{x}} in %d%: EX ({b})) ^ ({q}{{x}} in %e%: EX ({b}))"));
                 out.push(format!("{q}{{x}} in %d%: {q}{{y}} in %e%: (@{{x}}: {b}) & (@{{y}}: {})", b.replace("{x}", "{y}").replace("{y}: AX {y}", "{z}: AX {z}").replace("{y}: AG EF {y}", "{z}: AG EF {z}").replace("!{y} in", "!{z} in").replace("({y} & a)", "({z} & a)")));
+            }
+        }
+        // the same inner domain (same label, same nesting depth) under different outer domains / none
+        let inner = ["{x} & EX {y}", "(@{y}: EF {x}) | AX {y}", "@{x}: (a & EX {y})"];
+        for (qi, q1) in qs.iter().enumerate() {
+            let q2 = qs[(qi + 1) % 3];
+            for b in inner.iter().take(pool_size.min(3)) {
+                for op in ["&", "|"] {
+                    out.push(format!("({q1}{{x}} in %d%: {q2}{{y}} in %e%: {b}) {op} ({q1}{{x}} in %e%: {q2}{{y}} in %e%: {b})"));
+                    out.push(format!("({q1}{{x}} in %d%: {q2}{{y}} in %e%: {b}) {op} ({q1}{{x}}: {q2}{{y}} in %e%: {b})"));
+                    out.push(format!("({q1}{{x}}: {q2}{{y}} in %d%: {b}) {op} ({q1}{{x}} in %e%: {q2}{{y}} in %d%: {b})"));
+                    out.push(format!("({q2}{{x}} in %e%: {q1}{{y}} in %d%: {b}) {op} ({q2}{{x}} in %d%: {q1}{{y}} in %d%: {b})"));
+                }
             }
         }
         out.push("!{x} in %d%: (@{x}: ((@{x}: %p%) & (@{x}: %p%)))".into());
